@@ -203,6 +203,8 @@ func Check() *common.Check {
 	return &common.Check{
 		ID:    "C06",
 		Level: "exploration",
+		// every case is recorded before it runs: a fatal error or a hang of the worker is attributed to it
+		CrashSafe: true,
 		Rule: fmt.Sprintf("every accepted statement of the sqlgen space (quick: shapes with <=2 operator nodes in WHERE, all clause/DML/DDL/hole/nesting sections; thorough: everything incl. 3-operator shapes) every clause-option and DML statement again as commented text (2 comment layouts + 3 hand placements of line / block comments before, after and between code) and every accepted .sql file under /repo/testdata, "+
 			"each through %d (serialiser, option set) pairs: AST.SQL; AST.Format x {keyword case 3 x indent style 2 x width 3 x newline-per-clause 2 x semicolon 2} + 2 presets; the CLI SQLFormatter x 24 option sets; gosqlx.Format x 12; formatter.Format x 8. "+
 			"Oracle: re-parse accepted, tree equal up to keyword / operator-word / function-name / type-name letter case, second pass string-identical. distinct = distinct SQL text; non-trivial = statement uses >=3 grammar features", len(sers)),
